@@ -247,7 +247,17 @@ fn threads() -> usize {
 
 fn run_check(spec: &PropSpec, ck: &Check, opt: &Options, deadline: Option<Instant>, agg: &Mutex<Agg>) -> (u64, f64) {
   let t0 = Instant::now();
-  let cases = (ck.gen)(opt.tier);
+  let cases = match catch_unwind(AssertUnwindSafe(|| (ck.gen)(opt.tier))) {
+    Ok(c) => c,
+    Err(_) => {
+      // building the cases of a check calls into the code under test (base encodings, honest reports): a panic
+      // there is recorded as a harness error (exit 2 unless a violation is confirmed elsewhere), never a crash
+      let msg = LAST_PANIC.with(|p| p.borrow_mut().take()).unwrap_or_default();
+      eprintln!("note: generating the cases of {}/{} panicked: {}", spec.id, ck.name, msg);
+      agg.lock().unwrap().harness_errors.push(format!("case generation of {}/{} panicked: {}", spec.id, ck.name, msg));
+      vec![]
+    }
+  };
   let next = AtomicUsize::new(0);
   let nthreads = threads().min(cases.len().max(1));
   std::thread::scope(|s| {
